@@ -414,3 +414,84 @@ ASSUMPTIONS = [
     "callee contracts used modularly: Parameter._validate (returns or raises ValueError/TypeError; verified per type by C01), Parameters._update_ref / _update_deps / _call_watcher / _batch_call_watchers (effects recorded as ghost state)",
     "the dispatch loop `for watcher in sorted(...)` is executed with the arbitrary-iteration rule without an invariant: per-iteration clauses only (old/new/after-store); the exactly-once-in-order clause is carried by the bounded layer",
 ]
+
+
+# ======================================================================================
+# Parameters._resolve_ref is pure with respect to param state (discharges A-PUREREF for the
+# function the setter calls BEFORE validation): no link table, task table or value is touched, no
+# task is cancelled; an asynchronous reference is only *scheduled*.
+# ======================================================================================
+def resolve_ref_frame_contract():
+    def configure(I):
+        I.sym_fields = {"nested_refs", "name"}
+
+        def pure(name, result=None):
+            def h(I, st, fv, args, kwargs, ctx):
+                st.ghost["calls"] = st.ghost.get("calls", []) + [name]
+                r = Sym(I.U.fresh(name))
+                if name == "resolve_value":
+                    q = st.fork()
+                    return [(st, r), (q, Raise("Skip", origin="resolve_value"))]
+                return [(st, r)]
+            return h
+        I.contracts["resolve_ref"] = pure("resolve_ref")
+        I.contracts["resolve_value"] = pure("resolve_value")
+        I.contracts["iscoroutinefunction"] = pure("iscoroutinefunction")
+        I.lib["inspect.isgeneratorfunction"] = pure("isgeneratorfunction")
+        I.lib["functools.partial"] = pure("partial")
+        I.lib["new:partial"] = pure("partial")
+        I.lib["global:async_executor"] = lambda I: FuncV("builtin", name="async_executor", self=None)
+
+        def executor(I, st, fv, args, kwargs, ctx):
+            st.ghost["scheduled"] = st.ghost.get("scheduled", 0) + 1
+            return [(st, Conc(None))]
+        I.lib["async_executor"] = executor
+        I.contracts["async_executor"] = executor
+
+        def vmethod(I, st, name, selfv, args, kwargs, ctx):
+            if name == "cancel":
+                st.ghost["cancelled"] = st.ghost.get("cancelled", 0) + 1
+                return [(st, Conc(None))]
+            return None
+        I.lib["$value_method"] = vmethod
+
+    def setup(I, st):
+        U = I.U
+        W = dm.World(I, st, initialized=Conc(True))
+        ph = st.heap[W.private.oid]
+        tabs = {}
+        for k in ("refs", "async_refs", "values"):
+            d = I.alloc_dict(st, keys=U.fresh_seq(k + "_keys"), vals=z3.Const(k + "_vals", z3.ArraySort(vm.V, vm.V)))
+            ph.fields[k] = d
+            ph.init[k] = d
+            tabs[k] = (d, st.heap[d.oid].keys, st.heap[d.oid].vals)
+        syncing = I.alloc_list(st, U.fresh_seq("syncing"))
+        ph.fields["syncing"] = syncing
+        ph.init["syncing"] = syncing
+        pobj, value = Sym(U.fresh("pobj")), Sym(U.fresh("value"))
+        fv = I.bound_method(W.param, I.src.find_method("Parameters", "_resolve_ref"))
+        return fv, [pobj, value], {}, {"W": W, "tabs": tabs, "symbols": {}}
+
+    def post(I, info, st, oc):
+        out = []
+        W = info["W"]
+        how = "raise" if isinstance(oc, Raise) else "return"
+        for k, (d, keys0, vals0) in info["tabs"].items():
+            cur = st.heap[W.private.oid].fields.get(k)
+            same = isinstance(cur, Ref) and cur.oid == d.oid
+            h = st.heap[d.oid]
+            out.append(("C02/resolving a reference leaves `%s` untouched[%s]" % (k, how),
+                        z3.And(z3.BoolVal(bool(same)), h.keys == keys0, h.vals == vals0)))
+        out.append(("C02/resolving a reference cancels no task[%s]" % how, z3.BoolVal(not st.ghost.get("cancelled"))))
+        out.append(("C02/dispatcher state untouched[%s]" % how, z3.And(W.bw(st) == W.bw0.t, W.tr(st) == W.tr0.t)))
+        return out
+    c = FunctionContract("%s:Parameters._resolve_ref" % MOD, "C02", setup, post, configure=configure,
+                         name="Parameters._resolve_ref[frame]")
+    return c
+
+
+_c02_base = contracts
+
+
+def contracts():
+    return _c02_base() + [resolve_ref_frame_contract()]
